@@ -87,6 +87,7 @@ type Contract struct {
 type ConfigSpec struct {
 	Name   string
 	Values []int64
+	Alias  *Expr // "config n in 1,2 = expr": n is the value of expr at entry (a case split on it)
 }
 
 type LetSpec struct {
@@ -515,6 +516,14 @@ func (db *ContractDB) LoadContractFile(path, pkgPath string) error {
 			}
 			cs := ConfigSpec{Name: strings.TrimSpace(name)}
 			r = strings.TrimSpace(r)
+			if main, al, ok := strings.Cut(r, " = "); ok {
+				r = strings.TrimSpace(main)
+				ae, err := pe(al)
+				if err != nil {
+					return err
+				}
+				cs.Alias = ae
+			}
 			if main, q, ok := strings.Cut(r, " quick "); ok {
 				r = strings.TrimSpace(main)
 				if cur.QuickCfg == nil {
